@@ -61,7 +61,8 @@ class time_guard:
     def __enter__(self):
         import signal
         self._old = signal.signal(signal.SIGALRM, self._fire)
-        signal.setitimer(signal.ITIMER_REAL, self.seconds)
+        # repeating: a timeout raised where exceptions are swallowed (inside an audit hook, a __del__) fires again a second later
+        signal.setitimer(signal.ITIMER_REAL, self.seconds, 1.0)
 
     def __exit__(self, *exc):
         import signal
